@@ -3,7 +3,8 @@
  * lengths, residues, gap vectors and histograms.  detect_alphabet is replaced by a stand-in (its arithmetic is C13).
  * assert: the result holds the records of the first input followed by those of the second, each with its own residues,
  * gaps and name; the histogram is the sum; the source slots are emptied (no record is owned twice); inputs of different
- * kinds are rejected; the member lists are rebuilt for the new count. */
+ * kinds are rejected; the member lists are rebuilt for the new count; releasing both objects afterwards leaves nothing
+ * allocated (memory-leak check). */
 #include "vk.h"
 #include "tldevel.h"
 #include <stdlib.h>
@@ -55,5 +56,9 @@ VK_MAIN()
                 VK_ASSERT(d->num_profiles == 2 * (VK_ND + VK_NSRC) - 1 && d->nsip != NULL && d->sip != NULL, "member lists rebuilt for the new count");
                 for (int i = 0; i < VK_ND + VK_NSRC; i++) VK_ASSERT(d->nsip[i] == 1 && d->sip[i][0] == i, "every record is its own group");
         }
+        /* C16: as kalign_read_input does - the emptied source object is released, later the merged one; with
+         * --memory-leak-check nothing the two objects owned may remain (placeholder records included) */
+        kalign_free_msa(s);
+        kalign_free_msa(d);
         VK_END();
 }
